@@ -107,6 +107,7 @@ type world struct {
 	opNo       int64
 	setOp      func(int64)
 	direct     bool   // the current op bypasses the stack (pre-population)
+	rewalk     bool   // every listing value is run a second time
 	blobTypes  bool   // blobs may be pushed under media types other than application/octet-stream
 	rawURL     string // outermost HTTP server when the stack is one HTTP hop (wire-level upload requests)
 	serverURL  string // outermost HTTP server of the stack ("" if none or single POST disabled)
@@ -562,19 +563,31 @@ func (w *world) exec(ctx context.Context, op Op) (e ev) {
 	case "DeleteTag":
 		observeErr(e, reg.DeleteTag(ctx, op.R, op.T))
 	case "ListRepos":
-		items, n, err := collect(reg.Repositories(ctx, op.Start))
+		it := reg.Repositories(ctx, op.Start)
+		items, n, err := collect(it)
 		observeErr(e, err)
 		e["items"] = items
 		e["calls"] = n
 		e["startpos"] = listPos(cat.Repos, op.Start)
+		if w.rewalk {
+			rewalk(e, it, func(x string) string { return x })
+		}
 	case "ListTags":
-		items, n, err := collect(reg.Tags(ctx, op.R, op.Start))
+		it := reg.Tags(ctx, op.R, op.Start)
+		items, n, err := collect(it)
 		observeErr(e, err)
 		e["items"] = items
 		e["calls"] = n
 		e["startpos"] = listPos(cat.Tags, op.Start)
+		if w.rewalk {
+			rewalk(e, it, func(x string) string { return x })
+		}
 	case "Referrers":
-		descs, n, err := collect(reg.Referrers(ctx, op.R, w.digestOf(op.C), ""))
+		it := reg.Referrers(ctx, op.R, w.digestOf(op.C), "")
+		descs, n, err := collect(it)
+		if w.rewalk {
+			rewalk(e, it, func(d ociregistry.Descriptor) string { return cat.cidOfDigest(d.Digest) })
+		}
 		observeErr(e, err)
 		items := []string{}
 		full := []ev{}
@@ -589,6 +602,19 @@ func (w *world) exec(ctx context.Context, op Op) (e ev) {
 		panic("unknown op " + op.Op)
 	}
 	return e
+}
+
+// rewalk runs the same listing value again - first declining after one item, then completely - and
+// records what the complete second run delivered: a listing value can be run any number of times.
+func rewalk[T any](e ev, it ociregistry.Seq[T], name func(T) string) {
+	it(func(T, error) bool { return false })
+	items, _, err := collect(it)
+	names := []string{}
+	for _, x := range items {
+		names = append(names, name(x))
+	}
+	e["items2"] = names
+	e["ok2"] = err == nil
 }
 
 // collect drains an iterator, counting how often the consumer was called, so that the
